@@ -269,6 +269,7 @@ def r3_cursor(ctx):
 
 
 def r4_merge_or_append(ctx):
+    _prepend_order(ctx)
     fn = ctx.fn(DIP, "DIP.parse")
     loops = [n for n in ast.walk(fn) if isinstance(n, ast.For) and "target.nodes" in norm(n.iter) and n.orelse]
     cands = [l for l in loops if any("modify_value" in norm(x) for x in ast.walk(l))]
@@ -359,6 +360,7 @@ class BoolCast(Handler):
 
 
 def r6_scalar_literals(ctx):
+    _literal_fields(ctx)
     fn = ctx.fn(NB, "BaseNode.cast_value")
     boolif = [n for n in ast.walk(fn) if isinstance(n, ast.If) and norm(n.test) == "self.keyword == 'bool'"]
     if len(boolif) != 1:
@@ -381,7 +383,7 @@ def r6_scalar_literals(ctx):
         ctx.form("value = self.dtype(value)" in [norm(x) for st in other for x in ast.walk(st) if isinstance(x, ast.Assign)], NB,
                  "BaseNode.cast_value", "other scalars are cast with the node's own type")
     s = norm(fn).replace("\n", " ")
-    ctx.form("if np.isscalar(value) and value in [None, Keyword.NONE]: value = None" in s, NB, "BaseNode.cast_value", "none keyword and None denote a missing value")
+    ctx.form("if np.isscalar(value) and value in (None, Keyword.NONE): value = None" in s, NB, "BaseNode.cast_value", "none keyword and None denote a missing value")
     # width / sign carried by every constructor of the typed value
     for f, cname, tname, kws in (("node_integer.py", "IntegerNode", "IntegerType", {"precision": "self.precision", "unsigned": "self.unsigned"}),
                                  ("node_float.py", "FloatNode", "FloatType", {"precision": "self.precision"})):
@@ -395,11 +397,61 @@ def r6_scalar_literals(ctx):
                       f"value constructor carries unit and {'/'.join(kws)}: {norm(c)[:50]}", detail=kw, expected=dict(kws, unit="self.units_raw"))
 
 
+def _literal_fields(ctx):
+    """BaseNode.__init__ takes the parsed literal over from the line parser.  The raw value may be the empty string
+    (`s str = ""`), zero digits never occur, so a guard on its truth value drops a literal that was written."""
+    from ..truthy import bare_truth_uses
+    fn = ctx.fn(NB, "BaseNode.__init__")
+    hits = bare_truth_uses(fn, lambda t: t.endswith(".value_raw") or t == "value_raw")
+    guarded = []
+    for i in [x for x in ast.walk(fn) if isinstance(x, ast.If)]:
+        for st in ast.walk(i):
+            if isinstance(st, ast.Assign) and any(isinstance(t, ast.Subscript) and norm(t.slice) == "'value_raw'" for t in st.targets):
+                guarded.append(norm(i.test))
+    what = "the parsed raw value is taken over whatever it is (an empty quoted string is a value)"
+    if hits or any("value_raw" in g and " is " not in g for g in guarded):
+        ctx.violated(NB, "BaseNode.__init__", what, detail={"truth tests": [h[1] for h in hits], "guards of the copy": guarded},
+                     expected="kwargs['value_raw'] = parser.value_raw (unconditionally) or a test against None")
+    else:
+        stores = [norm(st.value) for st in ast.walk(fn) if isinstance(st, ast.Assign) and any(isinstance(t, ast.Subscript) and norm(t.slice) == "'value_raw'" for t in st.targets)]
+        ctx.form(bool(stores), NB, "BaseNode.__init__", what, detail=stores)
+
+
+def _prepend_order(ctx):
+    """Nodes a table or an import expands into are put in front of the queue as a batch; the batch keeps its order
+    (columns in header order, imported nodes in source order)."""
+    from ..flowexpr import explore
+    rel = "src/scinumtools/dip/lists/list_nodes.py"
+    fn = ctx.fn(rel, "NodeList.prepend")
+    what = "a prepended batch keeps its own order (table columns in header order)"
+    pa = [a.arg for a in fn.args.args]
+    if len(pa) != 2:
+        ctx.form(False, rel, "NodeList.prepend", what, detail=pa)
+        return
+    b = pa[1]
+    ex = explore(fn)
+    stores = [norm(e.resolved) for q in ex.paths for e in q.events if e.kind == "store" and e.extra == "self.nodes"]
+    loops = [lp for lp, _, _ in ex.iterations.values() if isinstance(lp, ast.For)]
+    ins0 = [lp for lp in loops if any(isinstance(c, ast.Call) and norm(c.func) == "self.nodes.insert" and c.args and norm(c.args[0]) == "0" for c in ast.walk(lp))]
+    if stores and all(x in (f"{b} + self.nodes", f"list({b}) + self.nodes", f"[*{b}, *self.nodes]") for x in stores) and not ins0:
+        ctx.holds(rel, "NodeList.prepend", what)
+    elif any(x in (f"{b}[::-1] + self.nodes", f"list(reversed({b})) + self.nodes", f"self.nodes + {b}") for x in stores):
+        ctx.violated(rel, "NodeList.prepend", what, detail=stores, expected=f"{b} + self.nodes")
+    elif ins0:
+        it = norm(ins0[0].iter)
+        if it == b:
+            ctx.violated(rel, "NodeList.prepend", what, detail=f"for .. in {it}: self.nodes.insert(0, ..) puts the last element of the batch first", expected=f"{b} + self.nodes")
+        else:
+            ctx.form(it in (f"reversed({b})", f"{b}[::-1]"), rel, "NodeList.prepend", what, detail=it)
+    else:
+        ctx.form(False, rel, "NodeList.prepend", what, detail=stores)
+
+
 RULES = [
     ("C13.R1", "parent stack: while-loop popping on indent <= top, then push, path = join of all parents", r1_parent_stack),
     ("C13.R2", "recogniser list: essential precedences, every recogniser exists, typed nodes answer to the parsed type keyword", r2_recogniser_order),
     ("C13.R3", "line-parser cursor discipline: stripped text = group 1 = whole pattern; group indices exist; sign/width indices agree with patterns and node constructors", r3_cursor),
-    ("C13.R4", "merge-or-append: existing path => merged into the first matching entry, new path => appended; lookup covers the whole target environment; no reordering", r4_merge_or_append),
+    ("C13.R4", "merge-or-append: existing path => merged into the first matching entry, new path => appended; lookup covers the whole target environment; no reordering; a batch prepended to the queue keeps its order", r4_merge_or_append),
     ("C13.R5", "an unterminated triple-quoted block is an error", r5_blocks),
-    ("C13.R6", "scalar literal table (true/false/none, own type otherwise, no integer through a double); width/sign/unit carried by every typed-value constructor", r6_scalar_literals),
+    ("C13.R6", "scalar literal table (true/false/none, own type otherwise, no integer through a double); width/sign/unit carried by every typed-value constructor; the raw literal is taken over without a truth test", r6_scalar_literals),
 ]
